@@ -32,6 +32,13 @@ r = json.load(open(sys.argv[1]))
 gv = r.get("go_violations") or []
 for v in gv[:5]:
     print("FAIL: 386 Go-side violation %s: %s %s" % (v["signature"], v["what"], v["case"][:200]))
+seen = set()
+for v in gv:
+    if v["signature"] in seen:
+        continue
+    seen.add(v["signature"])
+    # picked up by bin/check: a failing input found by this run
+    print("EXTRA-VIOLATION\t%s/386\t%s (GOARCH=386)\t%s" % (v["signature"], v["what"], v["case"]))
 print("386 harness: %d cases, %d Go-side evaluations, notes: %s" % (r["cases"], r["go_checked"], "; ".join(r.get("notes") or [])))
 sys.exit(1 if gv else 0)
 PY
@@ -40,4 +47,30 @@ if [ ! -x "$RUNNER" ]; then echo "INCONCLUSIVE: extracted runner not built"; exi
 ( ulimit -s unlimited 2>/dev/null; timeout "$RUN_T" "$RUNNER" "$W/cases.sx" ) >"$W/verdicts.txt" 2>&1
 rc=$?
 if [ $rc -eq 124 ] || [ $rc -eq 137 ]; then echo "INCONCLUSIVE: runner timed out on the 386 cases"; exit 0; fi
-awk 'NF==3 && $1 ~ /^[0-9]+$/ {bad++; if (bad<=5) print "FAIL: 386 case " $1 " verdict " $2 " " $3} /^DONE/{d=$2} END{ if (bad) exit 1; if (!d) {print "FAIL: runner did not finish"; exit 1}; print "386 cases accepted by the runner: " d }' "$W/verdicts.txt"
+python3 - "$W/verdicts.txt" "$W/cases.sx" "$W/report.json" <<'PY'
+import json, sys
+verd, cases, rep = sys.argv[1:4]
+lines = [l for l in open(cases).read().split("\n") if l and not l.startswith(";")]
+kinds = (json.load(open(rep)).get("kinds") or [])
+bad, done, seen = 0, None, set()
+for l in open(verd):
+    f = l.split()
+    if f and f[0] == "DONE" and len(f) > 1:
+        done = f[1]
+    if len(f) == 3 and f[0].isdigit():
+        bad += 1
+        i = int(f[0])
+        if bad <= 5:
+            print("FAIL: 386 case %s verdict %s %s" % (f[0], f[1], f[2]))
+        kind = kinds[i] if i < len(kinds) else "?"
+        # verdict 2 = a sentence of the property fails on this output; 1 = the model disagrees
+        sig = "C19/%s%s/%s/386" % ("prop" if f[1] == "2" else "mismatch", f[2], kind)
+        if f[1] == "2" and sig not in seen and i < len(lines):
+            seen.add(sig)
+            print("EXTRA-VIOLATION\t%s\tsentence %s of the property fails on the output of the GOARCH=386 build\t%s" % (sig, f[2], lines[i]))
+if bad:
+    sys.exit(1)
+if not done:
+    print("FAIL: runner did not finish"); sys.exit(1)
+print("386 cases accepted by the runner: " + done)
+PY
